@@ -17,6 +17,7 @@ import (
 	"github.com/hydraide/hydraide/app/core/hydra/swamp/treasure/msgpackpatch"
 	"github.com/hydraide/hydraide/app/core/hydra/swamp/vigil"
 	"github.com/hydraide/hydraide/app/name"
+	"github.com/hydraide/hydraide/app/verifhook"
 )
 
 const (
@@ -2093,6 +2094,9 @@ func (s *swamp) CountTreasuresWaitingForWriter() int {
 // updates when only one of those treasures ends up in the beacon.
 func (s *swamp) CreateTreasure(key string) treasure.Treasure {
 
+	if verifhook.Enabled {
+		verifhook.Yield("swamp.create.enter", s.name.Get(), s)
+	}
 	s.createMu.Lock()
 	defer s.createMu.Unlock()
 
@@ -2249,6 +2253,9 @@ func (s *swamp) ForceCompaction() error {
 // DO NOT ADD TRANSACTION IF YOU CALL THIS FUNCTION, because the swamp can not be closed until the last transaction is released
 func (s *swamp) Close() {
 
+	if verifhook.Enabled {
+		verifhook.Yield("swamp.close.enter", s.name.Get(), s)
+	}
 	s.closeMutex.Lock()
 	if atomic.LoadInt32(&s.closing) == 1 {
 		// the swamp is already closing
@@ -2258,6 +2265,9 @@ func (s *swamp) Close() {
 	// set closing to 1 immediately to prevent other transactions to be created on the swamp
 	atomic.StoreInt32(&s.closing, 1)
 	s.closeMutex.Unlock()
+	if verifhook.Enabled {
+		verifhook.Yield("swamp.close.flagged", s.name.Get(), s)
+	}
 
 	// write all treasures to the chroniclerInterface that are waiting for the writer and don't send events to the hydra
 	// because we are closing the swamp and ask the chroniclerInterface to not send file pointers for new files, because,
@@ -2266,6 +2276,9 @@ func (s *swamp) Close() {
 		s.chroniclerInterface.DontSendFilePointer()
 		// write files to the filesystem that are waiting for the writer
 		s.fileWriterHandler(true)
+		if verifhook.Enabled {
+			verifhook.Yield("swamp.close.flushed", s.name.Get(), s)
+		}
 		// save metadata to the filesystem if there is any changes
 		s.metadataInterface.SaveToFile()
 
@@ -2308,6 +2321,9 @@ func (s *swamp) sendClosedEvent() {
 // WAITS FOR ALL TRANSACTIONS TO BE RELEASED
 func (s *swamp) Destroy() {
 
+	if verifhook.Enabled {
+		verifhook.Yield("swamp.destroy.enter", s.name.Get(), s)
+	}
 	swampName := s.name.Get()
 	slog.Info("Destroy: starting", "swamp", swampName)
 
@@ -2354,8 +2370,14 @@ func (s *swamp) Destroy() {
 	// Draining vigils first keeps s.mu free, so in-flight Saves complete and
 	// release their vigils, and (because closing=1 already gates SummonSwamp)
 	// no new vigils can be started in the meantime.
+	if verifhook.Enabled {
+		verifhook.Yield("swamp.destroy.drain", s.name.Get(), s)
+	}
 	s.Vigil.WaitForActiveVigilsClosed()
 
+	if verifhook.Enabled {
+		verifhook.Yield("swamp.destroy.drained", s.name.Get(), s)
+	}
 	slog.Debug("Destroy: vigils closed", "swamp", swampName)
 
 	s.mu.Lock()
@@ -2391,6 +2413,9 @@ func (s *swamp) Destroy() {
 // azonnal, így biztonsággal kiadható még a BeginVigil() utasítás is, valamint a swampot lekérdező funkciók is
 // biztonsággal használhatóak
 func (s *swamp) IsClosing() bool {
+	if verifhook.Enabled {
+		defer verifhook.Yield("swamp.isclosing.ret", s.name.Get(), s)
+	}
 	// set the last interaction time to the current time
 	atomic.StoreInt64(&s.lastInteractionTime, time.Now().UnixNano())
 	return atomic.LoadInt32(&s.closing) == 1
@@ -2550,6 +2575,9 @@ func (s *swamp) CountTreasures() int {
 // if the shadowDelete is false, then the treasure will be deleted from the chroniclerInterface too
 func (s *swamp) DeleteTreasure(key string, shadowDelete bool) error {
 
+	if verifhook.Enabled {
+		verifhook.Yield("swamp.delete.enter", s.name.Get(), s)
+	}
 	// set the last interaction time to the current time
 	atomic.StoreInt64(&s.lastInteractionTime, time.Now().UnixNano())
 	if !s.beaconKey.IsExists(key) {
@@ -2561,8 +2589,14 @@ func (s *swamp) DeleteTreasure(key string, shadowDelete bool) error {
 	s.deleteHandler(key, shadowDelete)
 
 	// destroy the swamp if there is no treasure in it
+	if verifhook.Enabled {
+		verifhook.Yield("swamp.autodestroy.check", s.name.Get(), s)
+	}
 	if s.beaconKey.Count() == 0 {
 		// feloldjuk a vigiliát, mert nincs több treasure a swampban és a Destroy megkövetelei a Vigil feloldását
+		if verifhook.Enabled {
+			verifhook.Yield("swamp.autodestroy.decided", s.name.Get(), s)
+		}
 		s.CeaseVigil()
 		s.Destroy()
 		return nil
@@ -2592,6 +2626,9 @@ func (s *swamp) CloneAndDeleteExpiredTreasures(howMany int32) ([]treasure.Treasu
 		s.deleteHandler(d.GetKey(), false)
 	}
 
+	if verifhook.Enabled {
+		verifhook.Yield("swamp.autodestroy.check", s.name.Get(), s)
+	}
 	// destroy the swamp if there is no treasure in it
 	remainingCount := s.beaconKey.Count()
 	slog.Debug("CloneAndDeleteExpiredTreasures auto-destroy check",
@@ -2601,6 +2638,9 @@ func (s *swamp) CloneAndDeleteExpiredTreasures(howMany int32) ([]treasure.Treasu
 	if remainingCount == 0 {
 		slog.Info("CloneAndDeleteExpiredTreasures: auto-destroying empty swamp",
 			"swamp", s.name.Get())
+		if verifhook.Enabled {
+			verifhook.Yield("swamp.autodestroy.decided", s.name.Get(), s)
+		}
 		s.CeaseVigil()
 		s.Destroy()
 	}
@@ -2670,8 +2710,14 @@ func (s *swamp) CloneAndDeleteMatchingTreasures(beaconType BeaconType, order Bea
 		s.deleteHandler(d.GetKey(), false)
 	}
 
+	if verifhook.Enabled {
+		verifhook.Yield("swamp.autodestroy.check", s.name.Get(), s)
+	}
 	// Auto-destroy on empty, mirroring CloneAndDeleteExpiredTreasures.
 	if s.beaconKey.Count() == 0 {
+		if verifhook.Enabled {
+			verifhook.Yield("swamp.autodestroy.decided", s.name.Get(), s)
+		}
 		s.CeaseVigil()
 		s.Destroy()
 	}
@@ -2703,6 +2749,9 @@ func (s *swamp) UnlockCapMu() { s.capMu.Unlock() }
 // Use this function carefully as it deletes the Treasures from the Swamp.
 func (s *swamp) CloneAndDeleteTreasuresByKeys(keys []string) ([]treasure.Treasure, error) {
 
+	if verifhook.Enabled {
+		verifhook.Yield("swamp.shiftkeys.enter", s.name.Get(), s)
+	}
 	// set the last interaction time to the current time
 	atomic.StoreInt64(&s.lastInteractionTime, time.Now().UnixNano())
 
@@ -2737,8 +2786,14 @@ func (s *swamp) CloneAndDeleteTreasuresByKeys(keys []string) ([]treasure.Treasur
 		// Missing keys are silently ignored (as per specification)
 	}
 
+	if verifhook.Enabled {
+		verifhook.Yield("swamp.autodestroy.check", s.name.Get(), s)
+	}
 	// destroy the swamp if there is no treasure in it
 	if s.beaconKey.Count() == 0 {
+		if verifhook.Enabled {
+			verifhook.Yield("swamp.autodestroy.decided", s.name.Get(), s)
+		}
 		s.CeaseVigil()
 		s.Destroy()
 	}
@@ -2810,6 +2865,9 @@ func (s *swamp) fileWriterHandler(isCloseWrite bool) {
 		return
 	}
 
+	if verifhook.Enabled {
+		verifhook.Yield("swamp.writer.collect", s.name.Get(), s, isCloseWrite)
+	}
 	var treasuresToWrite []treasure.Treasure
 	s.treasuresWaitingForWriter.Iterate(func(t treasure.Treasure) bool {
 
@@ -2818,12 +2876,18 @@ func (s *swamp) fileWriterHandler(isCloseWrite bool) {
 
 	}, beacon.IterationTypeKey)
 
+	if verifhook.Enabled {
+		verifhook.Yield("swamp.writer.collected", s.name.Get(), s, isCloseWrite)
+	}
 	// delete the treasures from the swamp and from the chroniclerInterface too
 	for _, t := range treasuresToWrite {
 		// delete the treasure from the treasuresWaitingForWriter index
 		s.treasuresWaitingForWriter.Delete(t.GetKey())
 	}
 
+	if verifhook.Enabled {
+		verifhook.Yield("swamp.writer.deleted", s.name.Get(), s, isCloseWrite)
+	}
 	// A Write funkció megvárja ameddig az előző write befejezi a munkáját, így nem kell
 	// külön szinkronizálni a két írási folyamatot
 	s.chroniclerInterface.Write(treasuresToWrite)
@@ -3346,6 +3410,9 @@ func (s *swamp) startWriteListener() {
 			// return
 			return
 		case <-writeTicker.C:
+			if verifhook.Enabled {
+				verifhook.Yield("swamp.writelistener.tick", s.name.Get(), s)
+			}
 
 			func() {
 
@@ -3353,6 +3420,9 @@ func (s *swamp) startWriteListener() {
 				// leállítani a swampot
 				s.closeWriteMutex.Lock()
 				defer s.closeWriteMutex.Unlock()
+				if verifhook.Enabled {
+					verifhook.Yield("swamp.writelistener.check", s.name.Get(), s)
+				}
 
 				if atomic.LoadInt32(&s.isFilesystemWritingActive) == 1 || atomic.LoadInt32(&s.closing) == 1 || s.treasuresWaitingForWriter.Count() == 0 {
 					// nem kell kiírni a fileba, mert vagy már kiírás alatt van, vagy már le van állítva a swamp, vagy nincs mit kiírni így
@@ -3390,6 +3460,9 @@ func (s *swamp) startCloseListener() {
 			// goroutines are finished their work
 			currentTime := time.Now()
 			lastInteractionTime := time.Unix(0, atomic.LoadInt64(&s.lastInteractionTime))
+			if verifhook.Enabled {
+				verifhook.Yield("swamp.closelistener.read", s.name.Get(), s, currentTime.After(lastInteractionTime.Add(s.closeAfterIdle+closeGapDuration)))
+			}
 
 			func() {
 
@@ -3397,6 +3470,9 @@ func (s *swamp) startCloseListener() {
 				// mert azokat is ki kell írni a fileba.
 				s.closeWriteMutex.Lock()
 				defer s.closeWriteMutex.Unlock()
+				if verifhook.Enabled {
+					verifhook.Yield("swamp.closelistener.check", s.name.Get(), s)
+				}
 
 				// Ha ez egy in-memory swamp, akkor nem kell vizsgálni a lezárásnál, hogy a isFilesystemWritingActive 1-e, mert nincs
 				// filerednszer szintű írás, csak a memóriában tároljuk a treasureket és csak azt kell ellenőrizni, hogy nincs-e aktív tranzakció
